@@ -27,14 +27,20 @@ class Untranslatable(Exception):
     pass
 
 
+# declared element types of `let mut v: Vec<T> = vec![]`
+VEC_TYPES = {'Vec<Line2>': ('Line2 α', ('st', 'Line2')), 'Vec<Atom2>': ('Atom2 α', ('st', 'Atom2')), 'Vec<LJ2>': ('LJ2 α', ('st', 'LJ2'))}
+
+
 # ----------------------------------------------------------------------------- lexer
 
 PUNCT = ['..=', '::', '->', '=>', '==', '!=', '<=', '>=', '&&', '||', '+=', '-=', '*=', '/=', '..']
 TOK = re.compile(
     r'\s*(?:'
+    r'(?P<com>//[^\n]*)|'
     r'(?P<num>(?:\d[\d_]*\.\d[\d_]*(?:[eE][+-]?\d+)?|\d[\d_]*\.(?![\w.])|\d[\d_]*[eE][+-]?\d+|\d[\d_]*)(?:_?(?:f64|f32|u64|u32|usize|i64|i32))?)'
     r'|(?P<id>[A-Za-z_]\w*)'
     r'|(?P<str>"(?:[^"\\]|\\.)*")'
+    r"|(?P<chr>'(?:[^'\\]|\\.)')"
     r"|(?P<life>'[a-z_]\w*(?!'))"
     r'|(?P<p>\.\.=|::|->|=>|==|!=|<=|>=|&&|\|\||\+=|-=|\*=|/=|\.\.|[-+*/%<>=!&|.,;:(){}\[\]#?@^~])'
     r')')
@@ -51,7 +57,9 @@ def lex(src):
                 break
             raise Untranslatable('cannot tokenise at %r' % src[pos:pos + 20])
         pos = m.end()
-        for k in ('num', 'id', 'str', 'life', 'p'):
+        if m.group('com') is not None:
+            continue
+        for k in ('num', 'id', 'str', 'chr', 'life', 'p'):
             if m.group(k) is not None:
                 out.append((k, m.group(k)))
                 break
@@ -128,13 +136,16 @@ class P:
                 if self.at('mut'):
                     self.take()
                 pat = self.pattern()
+                tytxt = None
                 if self.at(':'):
                     self.take()
+                    i0 = self.i
                     self.skip_type()
+                    tytxt = ''.join(v for _, v in self.t[i0:self.i])
                 self.take('=')
                 e = self.expr()
                 self.take(';')
-                stmts.append(('let', pat, e))
+                stmts.append(('let', pat, e, tytxt))
                 continue
             if self.at('for'):
                 self.take()
@@ -155,7 +166,8 @@ class P:
             if self.peek()[1] in ('=', '+=', '-=', '*=', '/='):
                 op = self.take()[1]
                 r = self.expr()
-                self.take(';')
+                if not self.at('}'):
+                    self.take(';')
                 stmts.append(('assign', e, op, r))
                 continue
             if self.at(';'):
@@ -191,6 +203,15 @@ class P:
         if k == 'num':
             self.take()
             return ('plit', v)
+        if k == 'chr':
+            self.take()
+            if self.peek() == ('p', '..='):
+                self.take()
+                k2, v2 = self.take()
+                if k2 != 'chr':
+                    raise Untranslatable('range pattern')
+                return ('prange', v, v2)
+            return ('pchr', v)
         if k == 'id':
             path = [self.take()[1]]
             while self.at('::'):
@@ -286,7 +307,11 @@ class P:
                 e = ('try', e)
                 continue
             if v == '[' and k == 'p':
-                raise Untranslatable('indexing')
+                self.take()
+                idx = self.expr()
+                self.take(']')
+                e = ('index', e, idx)
+                continue
             break
         return e
 
@@ -298,6 +323,18 @@ class P:
         if k == 'str':
             self.take()
             return ('str', v)
+        if k == 'chr':
+            self.take()
+            return ('chr', v)
+        if v == '[' and k == 'p':
+            self.take()
+            items = []
+            while not self.at(']'):
+                items.append(self.expr())
+                if self.at(','):
+                    self.take()
+            self.take(']')
+            return ('array', items)
         if v == '(':
             self.take()
             if self.at(')'):
@@ -398,6 +435,24 @@ class P:
                 self.take()
                 if path[-1] == 'iproduct' and self.at('('):
                     return ('iproduct', self.args())
+                if path[-1] == 'bail' and self.at('('):
+                    return ('bail', self.args())
+                if path[-1] == 'vec' and self.at('['):
+                    self.take('[')
+                    items = []
+                    rep = None
+                    while not self.at(']'):
+                        items.append(self.expr())
+                        if self.at(';') and len(items) == 1:
+                            self.take()
+                            rep = self.expr()
+                            break
+                        if self.at(','):
+                            self.take()
+                    self.take(']')
+                    if rep is not None:
+                        return ('repeat', items[0], rep)
+                    return ('array', items)
                 k3, v3 = self.peek()
                 close = {'(': ')', '[': ']', '{': '}'}[v3]
                 depth = 0
@@ -579,12 +634,23 @@ class Emitter:
             return self.blk(e)
         if k == 'struct':
             name = e[1][-1]
-            if e[3] is not None:
-                raise Untranslatable('struct update syntax')
+            if name == 'Self' and self.selfty is not None:
+                name = self.selfty
             fs = {}
+            if e[3] is not None:
+                b = e[3]
+                if name == 'LJ2' and b[0] == 'call' and b[1][0] == 'path' and '::'.join(b[1][1]) == 'Default::default' and not b[2] \
+                        and ('LJ2', 'default') in self.methods:
+                    d = self.methods[('LJ2', 'default')][0]
+                    fs = {'position': ('((%s).x, (%s).y)' % (d, d), ('pt',)), 'sigma': ('(%s).sigma' % d, 'f'),
+                          'epsilon': ('(%s).epsilon' % d, 'f'), 'cutoff': ('(%s).cutoff' % d, ('opt', 'f'))}
+                else:
+                    raise Untranslatable('struct update syntax')
+            given = set()
             for fname, fe in e[2]:
-                if fname in fs:
+                if fname in given:
                     raise Untranslatable('repeated field')
+                given.add(fname)
                 fs[fname] = self.ex(fe)
 
             def pt(key):
@@ -620,6 +686,27 @@ class Emitter:
                 if ty == 'i':
                     return '(shellRange %s)' % t, ('list', 'i')
             raise Untranslatable('range other than -k..=k over i64')
+        if k == 'chr':
+            return e[1], 'c'
+        if k == 'array':
+            parts = [self.ex(x) for x in e[1]]
+            if not parts:
+                return '[]', ('list', None)
+            if any(p[1] != parts[0][1] for p in parts):
+                raise Untranslatable('array literal')
+            return '[' + ', '.join(p[0] for p in parts) + ']', ('list', parts[0][1])
+        if k == 'repeat':
+            v, vty = self.ex(e[1])
+            return '(List.replicate %s %s)' % (self.nat(e[2]), v), ('list', vty)
+        if k == 'str':
+            return e[1], 'string' 
+        if k == 'try':
+            # `c.to_string().parse::<u64>()?` for a char known to be a decimal digit: its value (the parse cannot fail)
+            a = e[1]
+            if a[0] == 'mcall' and a[2] == 'parse' and not a[3] and a[1][0] == 'mcall' and a[1][2] == 'to_string' \
+                    and a[1][1][0] == 'path' and len(a[1][1][1]) == 1 and a[1][1][1][0] in getattr(self, 'digits', set()):
+                return '(digitVal %s)' % self.ex(a[1][1])[0], 'n'
+            raise Untranslatable('`?` on other than the parse of a digit character')
         if k == 'closure':
             raise Untranslatable('closure outside an iterator adaptor')
         raise Untranslatable('expression kind ' + k)
@@ -707,6 +794,16 @@ class Emitter:
                 return '(%s.zipIdx.map fun zp => (zp.2, zp.1))' % t, ('list', ('tup', ['n', el]))
             if name == 'skip' and len(args) == 1:
                 return '(%s.drop %s)' % (t, self.nat(args[0])), ty
+            if name == 'cycle' and not args:
+                return '', ('cyc', el, t)
+            if name == 'zip' and len(args) == 1:
+                b, bty = self.ex(args[0])
+                if isinstance(bty, tuple) and bty[0] == 'list':
+                    return '(List.zip %s %s)' % (t, b), ('list', ('tup', [el, bty[1]]))
+                if isinstance(bty, tuple) and bty[0] == 'cycskip':
+                    # only the first `len` elements of the endless iterator are consumed
+                    return '(List.zip %s (cycleTake %s %s (%s).length))' % (t, bty[2], bty[3], t), ('list', ('tup', [el, bty[1]]))
+                raise Untranslatable('zip with %r' % (bty,))
             if name == 'any' and len(args) == 1:
                 b, body, bty = self.lam(args[0], [el])
                 sub = body if bty == 'b' else None
@@ -728,6 +825,10 @@ class Emitter:
                 b, body, bty = self.lam(args[1], [ity, el])
                 return '(%s.foldl (fun %s %s => %s) %s)' % (t, b[0], b[1], body, init), ity
             raise Untranslatable('sequence method .%s' % name)
+        if isinstance(ty, tuple) and ty[0] == 'cyc':
+            if name == 'skip' and len(args) == 1:
+                return '', ('cycskip', ty[1], ty[2], self.nat(args[0]))
+            raise Untranslatable('method .%s on an endless iterator' % name)
         if isinstance(ty, tuple) and ty[0] == 'iprod':
             (ta, ea), (tb, eb) = ty[1]
             if name == 'filter' and len(args) == 1:
@@ -770,6 +871,16 @@ class Emitter:
                 return '(Mat3.setPosition %s %s)' % (t, as_P(a, aty)), T_MAT
             if name == 'periodic' and len(args) == 2:
                 return '(Mat3.periodic %s %s %s)' % (t, self.ex(args[0])[0], self.ex(args[1])[0]), T_MAT
+        if ty == ('str',):
+            if name == 'chars' and not args:
+                return t, ('list', 'c')
+            if name == 'trim_matches' and len(args) == 1:
+                a, aty = self.ex(args[0])
+                if aty == ('list', 'c'):
+                    return '(trimMatches %s %s)' % (a, t), ('str',)
+            if name == 'split_terminator' and len(args) == 1 and args[0] == ('chr', "','"):
+                return '(splitTerminator %s)' % t, ('list', ('str',))
+            raise Untranslatable('string method .%s' % name)
         if ty == 'n' and name in ('min', 'max') and len(args) == 1:
             return '(Nat.%s %s %s)' % (name, t, self.nat(args[0])), 'n'
         if ty == 'f':
@@ -781,12 +892,23 @@ class Emitter:
                 return '(powi %s %s)' % (t, args[0][1]), 'f'
             if name == 'mul' and len(args) == 1:
                 return '(%s * %s)' % (t, self.ex(args[0])[0]), 'f'
+            if name == 'partial_cmp' and len(args) == 1:
+                a, aty = self.ex(args[0])
+                if aty == 'f':
+                    return '(fPartialCmp %s %s)' % (t, a), ('opt', 'ord')
+            if name == 'eq' and len(args) == 1:
+                a, aty = self.ex(args[0])
+                if aty == 'f':
+                    return '(%s == %s)' % (t, a), 'b'
             if name == 'is_nan' and not args:
                 return '(!(%s == %s))' % (t, t), 'b'
             if name == 'to_radians' and not args:
                 return '(%s * ((Transc.pi : α) / ((180 : Nat) : α)))' % t, 'f'
         if ty == ('vec',) and name == 'norm_squared' and not args:
             return '(normSq %s %s)' % (comp(t, 1), comp(t, 2)), 'f'
+        if isinstance(ty, tuple) and ty[0] == 'opt' and name == 'unwrap' and not args and getattr(self, 'unwrap_tail', False):
+            # only as the whole value of a function whose Lean result type is `Option _`: `none` = the panic
+            return t, ty
         if isinstance(ty, tuple) and ty[0] == 'opt' and name == 'is_some' and not args:
             return '(%s).isSome' % t, 'b'
         if name == 'get_value' and not args:
@@ -820,6 +942,14 @@ class Emitter:
             return '(dist %s %s %s %s)' % (comp(a, 1), comp(a, 2), comp(b, 1), comp(b, 2)), 'f'
         if name in ('Point2::origin', 'nalgebra::Point2::origin') and not args:
             return '(((0 : Nat) : α), ((0 : Nat) : α))', ('pt',)
+        if name == 'String::from' and len(args) == 1:
+            return self.ex(args[0])[0], 'string'
+        if name in ('Matrix3::zeros', 'nalgebra::Matrix3::zeros') and not args:
+            return '(Mat3.zeros : Mat3 α)', T_MAT
+        if name == 'Transform2::from' and len(args) == 1:
+            t, ty = self.ex(args[0])
+            if ty == T_MAT:
+                return t, T_MAT
         if name == 'Transform2::new' and len(args) == 2:
             rot, _ = self.ex(args[0])
             tr, tty = self.ex(args[1])
@@ -834,6 +964,8 @@ class Emitter:
             return '(%s %s)' % (fn, ' '.join(self.ex(a)[0] for a in args)), rty
         if key in self.methods:
             fn, rty = self.methods[key][:2]
+            if callable(fn):
+                return fn(None, [self.ex(a)[0] for a in args]), rty
             return '(%s %s)' % (fn, ' '.join(self.ex(a)[0] for a in args)), rty
         raise Untranslatable('call of ' + name)
 
@@ -1111,6 +1243,8 @@ class Emitter:
     def sub(self):
         e = Emitter(self.env, self.structs, self.methods, self.consts, self.selfty)
         e.fresh = self.fresh
+        e.digits = set(getattr(self, 'digits', set()))
+        e.errors = getattr(self, 'errors', {})
         return e
 
     def loop_binder(self, pat, it):
@@ -1300,6 +1434,176 @@ class Emitter:
             return '(match %s with | (true, imp_v) => (true, imp_v) | (false, %s) => %s)' % (here, tup, self.imp(rest, vs))
         raise Untranslatable('statement %r in an imperative fragment' % (s[0] if s[0] != 'expr' else s[1][0],))
 
+    # ---- imperative fragments that may fail (`bail!`): value `Except ParseErr <tuple of the variables in out>`
+    @staticmethod
+    def tupv(names):
+        return '()' if not names else (names[0] if len(names) == 1 else '(' + ', '.join(names) + ')')
+
+    def assigned(self, st, acc):
+        """locals declared OUTSIDE these statements that are assigned (directly or through an index) in them"""
+        got, local = set(), set()
+        for s in st:
+            if s[0] == 'let':
+                def names(p):
+                    if p[0] == 'pid':
+                        local.add(p[1])
+                    elif p[0] == 'ptuple':
+                        for q in p[1]:
+                            names(q)
+                names(s[1])
+            elif s[0] == 'assign':
+                tgt = s[1]
+                if tgt[0] == 'index':
+                    tgt = tgt[1]
+                if tgt[0] == 'path' and len(tgt[1]) == 1:
+                    got.add(tgt[1][0])
+                else:
+                    raise Untranslatable('assignment target')
+            elif s[0] == 'expr' and s[1][0] == 'mcall' and s[1][2] == 'push' and s[1][1][0] == 'path' and len(s[1][1][1]) == 1:
+                got.add(s[1][1][1][0])
+            elif s[0] == 'for':
+                self.assigned(self.xstmts(s[3]), got)
+            elif s[0] == 'expr' and s[1][0] == 'if':
+                self.assigned(self.xstmts(s[1][2]), got)
+                if s[1][3] is not None:
+                    self.assigned(self.xstmts(s[1][3]), got)
+            elif s[0] == 'expr' and s[1][0] == 'match':
+                for pat, guard, body in s[1][2]:
+                    self.assigned(self.xstmts(body), got)
+        acc |= (got - local)
+        return acc
+
+    @staticmethod
+    def xstmts(b):
+        """statements of a block / arm body in an `impx` fragment"""
+        if b[0] != 'block':
+            if b[0] == 'tuple' and not b[1]:
+                return []
+            return [('expr', b)]
+        st = list(b[1])
+        if b[2] is not None:
+            st.append(('expr', b[2]))
+        return st
+
+    def impx(self, st, cur, out):
+        if not st:
+            return '(Except.ok %s)' % self.tupv(out)
+        s, rest = st[0], st[1:]
+        if s[0] == 'expr' and s[1][0] == 'tuple' and not s[1][1]:
+            return self.impx(rest, cur, out)
+        if s[0] == 'expr' and s[1][0] == 'macro' and s[1][1] in LOGGING:
+            return self.impx(rest, cur, out)
+        if s[0] == 'expr' and s[1][0] == 'bail':
+            args = s[1][1]
+            if not args or args[0][0] != 'str' or args[0][1] not in self.errors:
+                raise Untranslatable('bail! with an unknown message')
+            ctor, nargs = self.errors[args[0][1]]
+            if len(args) - 1 != nargs:
+                raise Untranslatable('bail! arity')
+            ats = [self.ex(a)[0] for a in args[1:]]
+            return '(Except.error (%s))' % ' '.join([ctor] + ats)
+        if s[0] == 'let':
+            t, ty = self.ex(s[2])
+            if len(s) > 3 and s[3] == 'Option<char>' and t == 'none':
+                t, ty = '(none : Option Char)', ('opt', 'c')
+            if len(s) > 3 and s[3] in VEC_TYPES and ty == ('list', None):
+                t, ty = '([] : List (%s))' % VEC_TYPES[s[3]][0], ('list', VEC_TYPES[s[3]][1])
+            ptxt, binds = self.bind(s[1], t, ty)
+            sub = self.sub()
+            cur2 = list(cur)
+            for n, tt, tty in binds:
+                sub.env[n] = (tt, tty)
+                if n not in cur2:
+                    cur2.append(n)
+            return '(let %s := %s; %s)' % (ptxt, t, sub.impx(rest, cur2, out))
+        if s[0] == 'assign' and s[1][0] == 'path' and len(s[1][1]) == 1 and s[1][1][0] in cur:
+            x = s[1][1][0]
+            xty = self.env[x][1]
+            v, vty = self.ex(s[3])
+            if s[2] != '=':
+                v = '(%s %s %s)' % (x, s[2][0], v)
+            elif isinstance(xty, tuple) and xty[0] == 'opt' and isinstance(vty, tuple) and vty[0] == 'opt' and xty != vty:
+                # `let mut operator: Option<char> = None` was typed by its initialiser: refine it now
+                sub = self.sub()
+                sub.env[x] = (x, vty)
+                return '(let %s := %s; %s)' % (x, v, sub.impx(rest, cur, out))
+            return '(let %s := %s; %s)' % (x, v, self.impx(rest, cur, out))
+        if s[0] == 'assign' and s[2] == '=' and s[1][0] == 'index' and s[1][1][0] == 'path' and len(s[1][1][1]) == 1 \
+                and s[1][1][1][0] in cur and self.env[s[1][1][1][0]][1] == T_MAT and s[1][2][0] == 'tuple' and len(s[1][2][1]) == 2:
+            m = s[1][1][1][0]
+            i = self.nat(s[1][2][1][0])
+            j = self.nat(s[1][2][1][1])
+            v, vty = self.ex(s[3])
+            return '(let %s := (Mat3.setEntry %s %s %s %s); %s)' % (m, m, i, j, v, self.impx(rest, cur, out))
+        if s[0] == 'expr' and s[1][0] == 'mcall' and s[1][2] == 'push' and len(s[1][3]) == 1 and s[1][1][0] == 'path' \
+                and len(s[1][1][1]) == 1 and s[1][1][1][0] in cur:
+            x = s[1][1][1][0]
+            v, vty = self.ex(s[1][3][0])
+            if self.env[x][1] != ('list', vty):
+                raise Untranslatable('push of %r onto %r' % (vty, self.env[x][1]))
+            return '(let %s := (%s ++ [%s]); %s)' % (x, x, v, self.impx(rest, cur, out))
+        if s[0] == 'for' or (s[0] == 'expr' and s[1][0] in ('if', 'match')):
+            inner = [s]
+            asg = sorted(self.assigned(inner, set()))
+            if any(a not in cur for a in asg):
+                raise Untranslatable('assignment to an undeclared local')
+            here = self.impx_compound(s, cur, asg)
+            if not rest and asg == list(out):
+                return here
+            return '(match %s with | Except.error imp_e => Except.error imp_e | Except.ok %s => %s)' % (
+                here, self.tupv(asg) if asg else '_', self.impx(rest, cur, out))
+        raise Untranslatable('statement %r in a fallible imperative fragment' % (s[0] if s[0] != 'expr' else s[1][0],))
+
+    def char_cond(self, pat, sc, sty):
+        """condition under which a scalar / char pattern matches, and the bindings it makes"""
+        if pat[0] == 'pwild':
+            return None, []
+        if pat[0] == 'pid':
+            return None, [(pat[1], sc, sty)]
+        if pat[0] == 'pchr' and sty == 'c':
+            return '(%s = %s)' % (sc, pat[1]), []
+        if pat[0] == 'prange' and sty == 'c':
+            return '(%s ≤ %s ∧ %s ≤ %s)' % (pat[1], sc, sc, pat[2]), []
+        raise Untranslatable('pattern %r on %r' % (pat[0], sty))
+
+    def impx_compound(self, s, cur, asg):
+        if s[0] == 'for':
+            t, ptxt, sub = self.loop_binder(s[1], s[2])
+            body = sub.impx(self.xstmts(s[3]), cur, asg)
+            return '(List.foldlM (fun %s %s => %s) %s %s)' % (self.tupv(asg) if asg else '_', ptxt, body, self.tupv(asg), t)
+        e = s[1]
+        if e[0] == 'if':
+            a = self.impx(self.xstmts(e[2]), cur, asg)
+            b = self.impx(self.xstmts(e[3]) if e[3] is not None else [], cur, asg)
+            return '(if %s then %s else %s)' % (self.as_prop(e[1]), a, b)
+        # match on a scalar or a character: an if-chain in source order
+        sc, sty = self.ex(e[1])
+        if sty not in ('c', 'n', 'i', 'f'):
+            raise Untranslatable('statement match on %r' % (sty,))
+        # group the alternatives of one arm (`'*' | '/' => body`): the parser duplicated the body
+        out = '(Except.ok %s)' % self.tupv(asg)      # no arm matches: unreachable, Rust checks exhaustiveness
+        chain = []
+        for pat, guard, body in e[2]:
+            cond, binds = self.char_cond(pat, sc, sty)
+            sub = self.sub()
+            for n, tt, tty in binds:
+                sub.env[n] = (tt, tty)
+            if pat[0] == 'prange' and pat[1] == "'0'" and pat[2] == "'9'" and e[1][0] == 'path' and len(e[1][1]) == 1:
+                sub.digits.add(e[1][1][0])
+            conds = [c for c in (cond, sub.as_prop(guard) if guard is not None else None) if c is not None]
+            bt = sub.impx(self.xstmts(body), cur, asg)
+            chain.append((conds, bt))
+        # the last arm without a condition closes the chain
+        term = None
+        for conds, bt in reversed(chain):
+            if not conds:
+                term = bt
+            else:
+                if term is None:
+                    term = out
+                term = '(if %s then %s else %s)' % (' ∧ '.join(conds), bt, term)
+        return term
+
     def basis_ref(self, e):
         """`basis.get(i).expect(..)` / `basis.get_mut(i).expect(..)` -> the Lean term of the index"""
         if e[0] == 'mcall' and e[2] == 'expect' and e[1][0] == 'mcall' and e[1][2] in ('get', 'get_mut') \
@@ -1445,7 +1749,7 @@ class Group:
         self.names = []
 
     def add(self, lean_name, sig, rty_lean, rel, rust_name, src, env, selfty=None, methods=None, consts=None, cut=None,
-            post=None, imp_vars=None):
+            post=None, imp_vars=None, impx=None, unwrap_tail=False):
         """translate `fn rust_name` found in `src` (already narrowed to the right impl block)"""
         self.names.append(lean_name)
         try:
@@ -1457,7 +1761,18 @@ class Group:
                 body = cut(body)
             ast = parse_fn_body(body)
             em = Emitter(env, STRUCTS, methods or {}, consts or {}, selfty)
-            if imp_vars is not None:
+            em.unwrap_tail = unwrap_tail
+            if impx is not None:
+                em.errors = impx
+                em.digits = set()
+                st = list(ast[1])
+                tl = ast[2]
+                if not (tl is not None and tl[0] == 'call' and tl[1] == ('path', ['Ok']) and len(tl[2]) == 1):
+                    raise Untranslatable('fallible function not ending in Ok(..)')
+                res = '__result'
+                st.append(('let', ('pid', 'fn_result'), tl[2][0], None))
+                term, ty = em.impx(st, [], ['fn_result']), None
+            elif imp_vars is not None:
                 term, ty = em.imp(em.blk_stmts(ast), imp_vars), None
             else:
                 term, ty = em.blk(ast)
@@ -1588,6 +1903,39 @@ def gen_fns(repo):
     g.add('lj2_energy', '(self other : LJ2 α)', 'α', 'src/shape/components/lj2.rs', 'energy', p_impl, env2('LJ2'))
     out[g.fname] = g.text('fnsLJ')
 
+    # ---------------- constructors of the components and of the built-in shapes (C02, C12, C13, C10)
+    g = Group('FnsCtor.lean', ['Model.Shapes'], 'src/shape/**/*.rs (constructors)')
+    a_new = impl_block(atom, r'impl\s+Atom2\s*\{')
+    g.add('atom2_new', '(x y radius : α)', 'Atom2 α', 'src/shape/components/atom2.rs', 'new', a_new,
+          {'x': ('x', 'f'), 'y': ('y', 'f'), 'radius': ('radius', 'f')}, selfty='Atom2')
+    g.add('line2_new', '(start end_ : α × α)', 'Line2 α', 'src/shape/components/line2.rs', 'new', l_impl,
+          {'start': ('start', ('tup', ['f', 'f'])), 'end': ('end_', ('tup', ['f', 'f']))}, selfty='Line2')
+    lj_def = impl_block(lj, r'impl\s+Default\s+for\s+LJ2\s*\{')
+    lj_new = impl_block(lj, r'impl\s+LJ2\s*\{')
+    g.add('lj2_default', '', 'LJ2 α', 'src/shape/components/lj2.rs', 'default', lj_def, {}, selfty='LJ2')
+    ljdm = {('LJ2', 'default'): ('(lj2_default : LJ2 α)', ('st', 'LJ2'))}
+    g.add('lj2_new', '(x y sigma : α)', 'LJ2 α', 'src/shape/components/lj2.rs', 'new', lj_new,
+          {'x': ('x', 'f'), 'y': ('y', 'f'), 'sigma': ('sigma', 'f')}, selfty='LJ2', methods=ljdm)
+    tri_env = {'radius': ('radius', 'f'), 'angle': ('angle', 'f'), 'distance': ('distance', 'f')}
+    g.add('mol_from_trimer', '(radius angle distance : α)', 'List (Atom2 α)', 'src/shape/molecular_shape2.rs', 'from_trimer', m_impl, tri_env,
+          selfty='MolShape', methods={('', 'Atom2::new'): ('atom2_new', ('st', 'Atom2'))})
+    g.add('mol_circle', '', 'List (Atom2 α)', 'src/shape/molecular_shape2.rs', 'circle', m_impl, {},
+          selfty='MolShape', methods={('', 'Atom2::new'): ('atom2_new', ('st', 'Atom2'))})
+    ljs_impl = impl_block(ljs, r'impl\s+LJShape2\s*\{')
+    g.add('lj_from_trimer', '(radius angle distance : α)', 'List (LJ2 α)', 'src/shape/lj_shape.rs', 'from_trimer', ljs_impl, tri_env,
+          selfty='LJShape', methods={**ljdm, ('', 'LJ2::new'): ('lj2_new', ('st', 'LJ2'))})
+    g.add('lj_circle', '', 'List (LJ2 α)', 'src/shape/lj_shape.rs', 'circle', ljs_impl, {},
+          selfty='LJShape', methods={**ljdm, ('', 'LJ2::new'): ('lj2_new', ('st', 'LJ2'))})
+    ls_impl = impl_block(ls, r'impl\s+LineShape\s*\{')
+    g.add('line_from_radial', '(points : List α)', 'Except Unit (List (Line2 α))', 'src/shape/line_shape.rs', 'from_radial', ls_impl,
+          {'points': ('points', ('list', 'f')), 'name': ('()', 'string')}, selfty='LineShape',
+          methods={('', 'Line2::new'): ('line2_new', ('st', 'Line2'))},
+          impx={'"The number of points provided is too few to create a 2D shape."': ('()', 0)})
+    g.add('line_polygon', '(sides : Nat)', 'Except Unit (List (Line2 α))', 'src/shape/line_shape.rs', 'polygon', ls_impl,
+          {'sides': ('sides', 'n')}, selfty='LineShape',
+          methods={('', 'LineShape::from_radial'): (lambda r, a: '(line_from_radial %s)' % a[1], ('st', 'LineShape'))})
+    out[g.fname] = g.text('fnsCtor')
+
     # ---------------- cell (C14, C02)
     g = Group('FnsCell.lean', ['Model.Cell'], 'src/cell.rs')
     cell = read(repo, 'src/cell.rs')
@@ -1610,6 +1958,15 @@ def gen_fns(repo):
           {'period': ('period', 'f'), 'offset': ('offset', 'f'), 'self': ('self', ('st', 'Transform2'))},
           methods={('Transform2', 'position'): (lambda r, a: 'position', ('pt',)), ('Transform2', 'set_position'): (lambda r, a: a[0], ('pt',))})
     out[g.fname] = g.text('fnsWrap')
+
+    # ---------------- the symmetry-operation parser (C17, C16)
+    g = Group('FnsParse.lean', ['Model.Parser'], 'src/transform.rs (from_operations)')
+    g.add('from_operations', '(sym_ops : List Char)', 'Except ParseErr (Mat3 α)', 'src/transform.rs', 'from_operations', t_impl,
+          {'sym_ops': ('sym_ops', ('str',))},
+          impx={'"Not enough dimensions in input"': ('ParseErr.tooFew', 0),
+                '"Too many dimensions in input"': ('ParseErr.tooMany', 0),
+                '"Found invalid value: \'{}\'"': ('ParseErr.invalid', 1)})
+    out[g.fname] = g.text('fnsParse')
 
     # ---------------- lattice images and symmetry copies (C14, C15, C04)
     MKPT = '/-- a pair as the model\'s point structure -/\ndef mkPt (p : α × α) : Pt α := ⟨p.1, p.2⟩\n'
@@ -1710,6 +2067,16 @@ def shape_energy (s o : Shape α) : α :=
         g.add(pre + 'cartesian_positions', '(self : Crystal α)', 'List (Mat3 α)', rel, 'cartesian_positions', inherent, stenv, methods=m)
         m[('State', 'cartesian_positions')] = (pre + 'cartesian_positions', L_MAT)
         extra(g, m, inherent, st_impl, pre)
+        # the ordering of states (the CLI's reduction `cmp::max` uses it)
+        m[('State', 'score')] = (pre + 'score', ('opt', 'f'))
+        env2s = dict(stenv, other=('other', ('st', 'State')))
+        eq_impl = impl_block(src, r'impl<S>\s+PartialEq\s+for\s+' + ty + r'<S>\s*where[^{]*\{')
+        po_impl = impl_block(src, r'impl<S>\s+PartialOrd\s+for\s+' + ty + r'<S>\s*where[^{]*\{')
+        o_impl2 = impl_block(src, r'impl<S>\s+Ord\s+for\s+' + ty + r'<S>\s*where[^{]*\{')
+        g.add(pre + 'eq', '(self other : Crystal α)', 'Bool', rel, 'eq', eq_impl, env2s, methods=m)
+        g.add(pre + 'partial_cmp', '(self other : Crystal α)', 'Option Ordering', rel, 'partial_cmp', po_impl, env2s, methods=m)
+        m[('State', 'partial_cmp')] = (pre + 'partial_cmp', ('opt', 'ord'))
+        g.add(pre + 'cmp', '(self other : Crystal α)', 'Option Ordering', rel, 'cmp', o_impl2, env2s, methods=m, unwrap_tail=True)
         return g
 
     def packed_extra(g, m, inherent, st_impl, pre):
@@ -1878,7 +2245,7 @@ def main():
         files = gen_fns(repo)
     except Exception as e:
         files = {}
-        for n in ('FnsOps.lean', 'FnsShapeDispatch.lean', 'FnsLattice.lean', 'FnsSite.lean', 'FnsPacked.lean', 'FnsPotential.lean', 'FnsLineShape.lean', 'FnsMolShape.lean', 'FnsLJShape.lean', 'FnsDisc.lean', 'FnsLine.lean', 'FnsLJ.lean', 'FnsCell.lean', 'FnsWrap.lean', 'FnsAccept.lean', 'FnsBuild.lean', 'FnsLoopTail.lean', 'FnsInnerStep.lean', 'FnsBasis.lean'):
+        for n in ('FnsParse.lean', 'FnsCtor.lean', 'FnsOps.lean', 'FnsShapeDispatch.lean', 'FnsLattice.lean', 'FnsSite.lean', 'FnsPacked.lean', 'FnsPotential.lean', 'FnsLineShape.lean', 'FnsMolShape.lean', 'FnsLJShape.lean', 'FnsDisc.lean', 'FnsLine.lean', 'FnsLJ.lean', 'FnsCell.lean', 'FnsWrap.lean', 'FnsAccept.lean', 'FnsBuild.lean', 'FnsLoopTail.lean', 'FnsInnerStep.lean', 'FnsBasis.lean'):
             files[n] = '/- GENERATED: rs2lean failed: %s -/\nnamespace PV.Gen\nend PV.Gen\n' % str(e).replace('-/', '- /')
     for name, text in files.items():
         path = os.path.join(outdir, name)
